@@ -82,7 +82,7 @@ def run(rep, tier, seed):
     other_items = [it for it in items if not (it[1].dump.augl < 0 and it[1].case.flags.get("skipws", 1))]
     ev = BC.byte_jobs("c14w", ws_items, extra=extra_ws)
     ev.update(BC.byte_jobs("c14l", other_items, extra=extra))
-    n_inputs = n_trees = n_layout_leaves = n_variant_groups = 0
+    n_inputs = n_trees = n_layout_leaves = n_variant_groups = n_mtok = n_mtbad = 0
     samples = []
     layout_strings = {}   # case id -> set of layout strings stored in real trees
     byid = {c.id: (c, bg, groups) for c, bg, groups in zip(cases, bgl, variants)}
@@ -107,6 +107,8 @@ def run(rep, tier, seed):
                                    obligation="correspondence Model.LRBytes.bparse vs rustemo::LRParser"), found_input=False)
                 break
         n_trees += len(e["extra"])
+        n_mtok += sum(1 for b in e.get("mtok", {}).values() if b)
+        n_mtbad += sum(1 for b in e.get("mtok", {}).values() if not b)
         # layout invariance on the real results
         c, bg, groups = byid[tag]
         for idxs in groups:
@@ -173,7 +175,7 @@ def run(rep, tier, seed):
              "sentences with random layout, non-sentences, garbage; every accepted input's tree is checked by lossless_b "
              "(+ layout_is_ws_b under whitespace skipping); each valid token sequence is re-rendered 3x with different "
              "layout and the trees compared; stored layouts are parsed by the separately compiled Layout sub-grammar",
-        trees_checked=n_trees, variant_groups_compared=n_variant_groups, layout_leaves=n_layout_leaves,
+        trees_checked=n_trees, inputs_meeting_mt_ok_b=n_mtok, inputs_not_meeting_mt_ok_b=n_mtbad, variant_groups_compared=n_variant_groups, layout_leaves=n_layout_leaves,
         layouts_checked_against_layout_rule=n_layout_checked, stats=stats, samples=samples)
     rep.assumptions = ["recognizers insensitive to what follows a token boundary (needed for layout-insertion invariance; "
                        "measured: only sequences that re-tokenise identically are compared)"]
